@@ -396,6 +396,13 @@ class NVec(StandIn):
 
     __mul__ = __rmul__
 
+    def __radd__(self, k):          # scalar + array / array + array, elementwise as numpy does
+        if isinstance(k, NVec):
+            return NVec([a + b for a, b in zip(k.items, self.items)])
+        return NVec([k + x for x in self.items])
+
+    __add__ = __radd__
+
     def __iter__(self):
         return iter(self.items)
 
